@@ -89,6 +89,8 @@ def compile_path(zdir: Path, path: Path, verbose: bool = False, keep_page: bool 
         page = walk_zorg_page(zdir, path, verbose=verbose)
         res["has_errors"] = bool(page.has_errors)
         res["notes"] = page_notes(page)
+        # Page.notes (what `db create` and every consumer of a page iterate over)
+        res["flat"] = [[n.zid, n.line_no] for n in page.notes]
         if keep_page:
             res["page"] = page
     except Exception as e:  # noqa: BLE001
